@@ -309,6 +309,71 @@ func attemptsProfile(r *rand.Rand, idx int, tier string) *eng.Case {
 	return c
 }
 
+// negRetriesProfile: plans submitted through Submit whose actions carry NEGATIVE retry budgets and scripts that fail
+// retryably three times before they succeed. Whatever budget the engine ends up storing for such an action, the
+// plugin may be invoked at most max(stored Retries, 0)+1 times.
+func negRetriesProfile(r *rand.Rand, idx int, tier string) *eng.Case {
+	neg := []int{-1, -2, -3, -5, -100}
+	mk := func(ret int) spec.Action {
+		a := spec.Action{Retries: ret, Pointer: r.Intn(3) == 0}
+		for i := 0; i < 3; i++ {
+			a.Steps = append(a.Steps, plug.Step{Out: plug.Transient})
+		}
+		a.Steps = append(a.Steps, plug.Step{Out: plug.OK})
+		return a
+	}
+	var p spec.Plan
+	p.Name = "p0"
+	if r.Intn(3) == 0 {
+		p.Pre = &spec.Checks{DelayUS: 1000, Actions: []spec.Action{mk(neg[r.Intn(len(neg))])}}
+	}
+	if r.Intn(3) == 0 {
+		p.Deferred = &spec.Checks{DelayUS: 1000, Actions: []spec.Action{mk(neg[r.Intn(len(neg))])}}
+	}
+	blk := spec.Block{Conc: 2, Tol: -1}
+	for s := 0; s < 2+r.Intn(2); s++ {
+		var sq spec.Seq
+		for a := 0; a < 1+r.Intn(2); a++ {
+			ret := neg[r.Intn(len(neg))]
+			if r.Intn(3) == 0 {
+				ret = r.Intn(4)
+			}
+			sq.Actions = append(sq.Actions, mk(ret))
+		}
+		blk.Seqs = append(blk.Seqs, sq)
+	}
+	if r.Intn(2) == 0 {
+		blk.Post = &spec.Checks{DelayUS: 1000, Actions: []spec.Action{mk(neg[r.Intn(len(neg))])}}
+	}
+	p.Blocks = append(p.Blocks, blk)
+	p.AssignTags()
+	c := baseCase(r, []spec.Plan{p})
+	c.GraceMS = 30
+	return c
+}
+
+func negRetriesOracle(c *eng.Case, run *eng.Run, pr *eng.PlanRun, t *oracle.Trace, res *CaseResult) {
+	for i := range pr.P0.Objs {
+		o := &pr.P0.Objs[i]
+		if o.Kind != "action" {
+			continue
+		}
+		calls := len(t.ByTag[o.Addr])
+		budget := o.Retries
+		if budget < 0 {
+			budget = 0
+		}
+		res.Counters["neg_retries_actions"]++
+		if calls > budget+1 {
+			res.Viols = append(res.Viols, ev.V("C05", "too-many-calls", "negative-retries", "action %s was submitted with a negative retry budget, is stored with Retries=%d and its plugin was invoked %d times", o.Addr, o.Retries, calls))
+		}
+		if len(o.Attempts) != calls {
+			res.Viols = append(res.Viols, ev.V("C05", "attempt-count", "negative-retries", "action %s: %d invocations but %d recorded attempts", o.Addr, calls, len(o.Attempts)))
+		}
+	}
+	res.Nontriv = hashStr(fmt.Sprint("negretries", pr.Spec))
+}
+
 func gateProfile(r *rand.Rand, idx int, tier string) *eng.Case {
 	if idx < 2*243 {
 		// bounded-exhaustive box: every subset of the five groups x every pass/fail assignment, at plan
@@ -795,9 +860,9 @@ func init() {
 	})
 	register(&Prop{
 		ID: "C05", Level: "exploration", Batch: 16, PerCaseTimeout: 90 * time.Second,
-		Rule:  "case i = PRNG(seed,i) plan whose every action has Retries 0-4 and a script of up to Retries+2 outcomes over {ok, transient, permanent, wrongtype, wrongtype together with a retryable error, right type with the wrong pointer-ness, overrun}; stored through vault.Create so that overrun actions can have a 250 ms timeout (a case in which a call scripted to return at once runs into that timeout is inconclusive); every 10th case explores every crash point of a strictly sequential plan with retry budgets and transient failures and checks the call budget against the durable attempts, the total number of calls across the crash and the final attempt record; every 40th case is a cosmosdb crash case (process death between two client writes, plans with re-run continuous checks that have retry budgets) whose recovered plans must carry consistent attempt records (no attempts on a NotStarted action, status agrees with the final attempt); non-trivial = the case contained a retried, overrun or wrong-type invocation; distinct by script hash",
+		Rule:  "case i = PRNG(seed,i) plan whose every action has Retries 0-4 and a script of up to Retries+2 outcomes over {ok, transient, permanent, wrongtype, wrongtype together with a retryable error, right type with the wrong pointer-ness, overrun}; every 20th case instead: a plan SUBMITTED with negative retry budgets (-1 ... -100) whose actions fail retryably three times before succeeding — at most max(stored Retries, 0)+1 calls; the others are stored through vault.Create so that overrun actions can have a 250 ms timeout (a case in which a call scripted to return at once runs into that timeout is inconclusive); every 10th case explores every crash point of a strictly sequential plan with retry budgets and transient failures and checks the call budget against the durable attempts, the total number of calls across the crash and the final attempt record; every 40th case is a cosmosdb crash case (process death between two client writes, plans with re-run continuous checks that have retry budgets) whose recovered plans must carry consistent attempt records (no attempts on a NotStarted action, status agrees with the final attempt); non-trivial = the case contained a retried, overrun or wrong-type invocation; distinct by script hash",
 		Cases: nCases(80, 2500),
-		Run: everyNth(40, cosmosFor("C05"), everyNth(10, c05Crash, engineRun("C05", attemptsProfile, func(c *eng.Case, run *eng.Run, pr *eng.PlanRun, t *oracle.Trace, res *CaseResult) {
+		Run: everyNth(40, cosmosFor("C05"), everyNth(10, c05Crash, onResidue(20, 7, engineRun("C05", negRetriesProfile, negRetriesOracle, false), engineRun("C05", attemptsProfile, func(c *eng.Case, run *eng.Run, pr *eng.PlanRun, t *oracle.Trace, res *CaseResult) {
 			if n := spuriousTimeouts(t, pr.P0); n > 0 {
 				// a call that is scripted to return at once was overtaken by the action's timeout: the machine is too
 				// slow for the timeouts of this profile, nothing about attempts can be concluded from this case
@@ -821,7 +886,7 @@ func init() {
 			}
 			res.Counters["actions_observed"] += len(t.ByTag)
 			res.Nontriv = hashStr(sb.String())
-		}, false))),
+		}, false)))),
 		RaceAttr:      raceHas("actions.Runner", "actions.run"),
 		MinNontrivial: 30,
 		Assumptions:   []string{"an engine that makes fewer than Retries+1 calls after a retryable failure is reported (rule no-retry) only when budget remained and no later call happened", "plans are stored with vault.Create (Submit enforces timeouts >= 5 s)"},
@@ -873,7 +938,7 @@ func init() {
 	})
 	register(&Prop{
 		ID: "C08", Level: "exploration", Batch: 16, PerCaseTimeout: 70 * time.Second,
-		Rule:  "case i = PRNG(seed,i) from the 'order' profile with retries and vault delays of up to 3 ms before/after every storage call; every second case (single plan) has a goroutine polling Plan(id) every 3 ms; every tenth case uses the C05 script alphabet (overrun, wrong type, exhausted budgets; 250 ms timeouts through vault.Create); every tenth case is a fault case: a strictly sequential plan runs in a grandchild process on a vault whose PRNG-chosen k-th write fails, every event journalled synchronously: no plugin invocation may begin after the failed write and Wait must not return; distinct by final-status hash",
+		Rule:  "case i = PRNG(seed,i) from the 'order' profile with retries and vault delays of up to 3 ms before/after every storage call; every second case (single plan) has a goroutine polling Plan(id) every 3 ms; every 30th case explores every crash point of a plan and applies the no-regress rule to the writes of the process that resumes it (what was durably Completed/Failed when it came up is never written in another status); every tenth case uses the C05 script alphabet (overrun, wrong type, exhausted budgets; 250 ms timeouts through vault.Create); every tenth case is a fault case: a strictly sequential plan runs in a grandchild process on a vault whose PRNG-chosen k-th write fails, every event journalled synchronously: no plugin invocation may begin after the failed write and Wait must not return; distinct by final-status hash",
 		Cases: nCases(300, 6000),
 		Run: c08Dispatch(engineRun("C08", persistProfile, func(c *eng.Case, run *eng.Run, pr *eng.PlanRun, t *oracle.Trace, res *CaseResult) {
 			res.Viols = append(res.Viols, oracle.C08(pr.Spec, t, pr.P0)...)
@@ -1079,6 +1144,9 @@ func c08Dispatch(normal func(c *Ctx, idx int) CaseResult) func(c *Ctx, idx int) 
 		if idx%10 == 9 {
 			return c08Fault(c, idx)
 		}
+		if idx%30 == 14 {
+			return c08Crash(c, idx)
+		}
 		return normal(c, idx)
 	}
 }
@@ -1089,6 +1157,16 @@ func c06Dispatch(normal func(c *Ctx, idx int) CaseResult) func(c *Ctx, idx int) 
 	return func(c *Ctx, idx int) CaseResult {
 		if idx >= 486 && (idx-486)%15 == 14 {
 			return c06Crash(c, idx)
+		}
+		return normal(c, idx)
+	}
+}
+
+// onResidue: case indices with idx mod n == k go to special.
+func onResidue(n, k int, special, normal func(c *Ctx, idx int) CaseResult) func(c *Ctx, idx int) CaseResult {
+	return func(c *Ctx, idx int) CaseResult {
+		if idx%n == k {
+			return special(c, idx)
 		}
 		return normal(c, idx)
 	}
